@@ -128,11 +128,42 @@ def build_value(ty, val, scenario, events):
     if n == 'Obj':
         return build_object(ty.args[0], val, scenario, events)
     if n in ('Opaque', 'Any'):
+        if isinstance(val, dict) and '$opaque' in val:
+            return OpaqueStub(val['$opaque'] or (ty.args[0] if ty.args else 'obj'), scenario, events)
         return val
+    if n == 'DictStrObj':
+        return dict((''.join(map(chr, k)) if not isinstance(k, str) else k, v) for k, v in (val or []))
     raise ValueError('native: cannot build a value of type %r' % (ty,))
 
 
+CURRENT_MOD = [None]
+
+
+class OpaqueStub:
+    """Stand-in for an object of an external / unverified class: every method call is an event."""
+
+    def __init__(self, label, scenario, events):
+        self.__dict__['_l'] = (label, scenario, events)
+
+    def __getattr__(self, name):
+        if name.startswith('__'):
+            raise AttributeError(name)
+        label, scenario, events = self.__dict__['_l']
+        return make_stub('%s.%s' % (label, name), scenario, events)
+
+    def __deepcopy__(self, memo):
+        return self
+
+    def __bool__(self):
+        return True
+
+    def __repr__(self):
+        return '<opaque %s>' % self.__dict__['_l'][0]
+
+
 def find_class(cname):
+    if CURRENT_MOD[0] is not None and isinstance(getattr(CURRENT_MOD[0], cname, None), type):
+        return getattr(CURRENT_MOD[0], cname)
     decl = lang.REGISTRY['fields'].get(cname, {})
     f = decl.get('__file__')
     cands = []
@@ -151,6 +182,8 @@ def find_class(cname):
 def build_object(cname, val, scenario, events):
     cls = find_class(cname)
     obj = object.__new__(cls)
+    if val is None:
+        val = {}
     decl = lang.REGISTRY['fields'].get(cname, {})
     for f, ty in decl.items():
         if f.startswith('__') and f.endswith('__'):
@@ -175,6 +208,8 @@ def make_stub(ev, scenario, events):
         rs = scenario.get('opaque_results', {}).get(ev)
         if rs is not None and k < len(rs):
             res = rs[k]
+            if isinstance(res, dict) and '$opaque' in res:
+                res = OpaqueStub(res['$opaque'], scenario, events)
         events.append((ev, [norm(copy.deepcopy(x)) for x in a], res))
         if k in scenario.get('raises_at', {}).get(ev, []):
             raise OpaqueRaised(ev)
@@ -207,6 +242,8 @@ class Evaluator:
             'exists': lambda rng, pred, **kw: any(pred(i) for i in rng),
             'is_bytes': lambda s: all(isinstance(x, int) and 0 <= x < 256 for x in s),
             'seq_eq': lambda a, b: a == b, 'mention': lambda x: True,
+            'contains_key': lambda d, k: (''.join(map(chr, k)) if isinstance(k, list) else k) in d,
+            'map_eq': lambda a, b: a == b,
             'exc_origin': lambda: getattr(self.exc, 'name', ''),
             'result': self.result,
         })
@@ -236,6 +273,7 @@ def run_case(mod, file, qualname, scenario):
     fn = lang.REGISTRY['contracts'][(file, qualname)]
     params, clauses, tree = parse_contract(fn)
     events = []
+    CURRENT_MOD[0] = mod
     glob = vars(mod)
     args = {}
     for p, ann in params:
